@@ -427,7 +427,7 @@ type RBody struct {
 }
 
 type ROp struct {
-	K    string `json:"k"` // new, over, del, delabs, resave, flush, reopen, crash, check
+	K    string `json:"k"` // new, over, del, delabs, resave, flush, reopen, crash, check, faultflush, faultfill
 	Pick int    `json:"pick,omitempty"`
 	B    RBody  `json:"b"`
 }
@@ -471,14 +471,14 @@ func genRBody(t *rapid.T, slots int) RBody {
 func genROps(t *rapid.T, c *RCase, maxOps int) int {
 	kinds := []string{"new", "new", "new", "new", "over", "over", "over", "del", "del", "del", "delabs", "resave", "check"}
 	if c.Backend == "leveldb" {
-		kinds = append(kinds, "flush", "flush", "reopen", "crash", "crash")
+		kinds = append(kinds, "flush", "flush", "reopen", "crash", "crash", "faultflush", "faultflush", "faultfill")
 	}
 	nOps := rapid.IntRange(0, maxOps).Draw(t, "nOps")
 	news := 0
 	for i := 0; i < nOps; i++ {
 		op := ROp{K: pick(t, "kind", kinds), Pick: rapid.IntRange(0, 1000).Draw(t, "pick")}
 		switch op.K {
-		case "new", "over", "resave":
+		case "new", "over", "resave", "faultfill":
 			op.B = genRBody(t, c.Slots)
 			if op.K == "new" {
 				news++
@@ -675,6 +675,10 @@ type rmodel struct {
 	disk    map[uint64]*metapb.Region   // predicted durable content
 	batch   map[uint64]*metapb.Region   // leveldb: unflushed saves
 	cnt     int                         // leveldb: saves since the last flush
+	// doubt: a SaveRegion that returned an error (the automatic flush it triggered
+	// failed) is not acknowledged: the version may or may not become durable. It is
+	// the last operation on that id (a later save or delete clears it).
+	doubt map[uint64]*metapb.Region
 }
 
 func (m *rmodel) flush() {
@@ -685,10 +689,20 @@ func (m *rmodel) flush() {
 	m.cnt = 0
 }
 
+// saveFailed: SaveRegion returned an error. What the code does: the region is in
+// the batch, the counter is unchanged, the flush is retried by the next save/flush.
+func (m *rmodel) saveFailed(r *metapb.Region) {
+	id := r.GetId()
+	m.vers[id] = append(m.vers[id], r)
+	m.batch[id] = r
+	m.doubt[id] = r
+}
+
 func (m *rmodel) save(r *metapb.Region) {
 	id := r.GetId()
 	m.vers[id] = append(m.vers[id], r)
 	m.live[id] = r
+	delete(m.doubt, id)
 	if !m.leveldb {
 		m.disk[id] = r
 		return
@@ -702,6 +716,7 @@ func (m *rmodel) save(r *metapb.Region) {
 
 func (m *rmodel) del(id uint64) {
 	delete(m.live, id)
+	delete(m.doubt, id)
 	delete(m.disk, id) // the unflushed batch is not purged by a delete
 }
 
@@ -776,7 +791,7 @@ func runRegionCase(c RCase) (info vkit.Info, err error) {
 		}
 	}
 	m := &rmodel{leveldb: c.Backend == "leveldb", vers: map[uint64][]*metapb.Region{}, live: map[uint64]*metapb.Region{},
-		disk: map[uint64]*metapb.Region{}, batch: map[uint64]*metapb.Region{}}
+		disk: map[uint64]*metapb.Region{}, batch: map[uint64]*metapb.Region{}, doubt: map[uint64]*metapb.Region{}}
 	st := f.storage()
 
 	var liveIdx, deadIdx []int // pool indices; liveIdx ascending by time of (re)insertion, deadIdx = deleted/lost
@@ -785,6 +800,39 @@ func runRegionCase(c RCase) (info vkit.Info, err error) {
 	pruned := 0
 
 	removeIdx := func(s []int, k int) []int { return append(s[:k:k], s[k+1:]...) }
+	indexOf := func(s []int, v int) int {
+		for i, x := range s {
+			if x == v {
+				return i
+			}
+		}
+		return -1
+	}
+	poolOf := map[uint64]int{} // id -> pool index
+	// promote: an unacknowledged save turned out durable: it is the current version now
+	promote := func(id uint64, r *metapb.Region) {
+		if _, wasLive := m.live[id]; !wasLive {
+			pi := poolOf[id]
+			if k := indexOf(deadIdx, pi); k >= 0 {
+				deadIdx = removeIdx(deadIdx, k)
+			}
+			liveIdx = append(liveIdx, pi)
+		}
+		m.live[id] = r
+		m.disk[id] = r
+		delete(m.doubt, id)
+	}
+	// breakDB makes every leveldb write fail (the handle is closed underneath);
+	// healDB installs a working handle on the same directory.
+	breakDB := func() error { return f.rs.LeveldbKV.DB.Close() }
+	healDB := func() error {
+		h, e := kv.NewLeveldbKV(f.dir)
+		if e != nil {
+			return e
+		}
+		f.rs.LeveldbKV = h
+		return nil
+	}
 	save := func(id uint64, b RBody) error {
 		seq++
 		r := buildRegion(&c, id, seq, b)
@@ -894,10 +942,23 @@ func runRegionCase(c RCase) (info vkit.Info, err error) {
 			if len(m.vers[id]) == 0 {
 				return fmt.Errorf("%s: load returned region %s which was never saved", when, short(g))
 			}
+			d, inDoubt := m.doubt[id]
 			if want, ok := m.live[id]; ok {
-				if !proto.Equal(g, want) {
-					return fmt.Errorf("%s: region %d loaded as %s (saved version #%d of %d), last saved %s", when, id, short(g), m.versionOf(g), len(m.vers[id]), short(want))
+				switch {
+				case proto.Equal(g, want):
+					if inDoubt { // the unacknowledged save did not become durable: allowed
+						m.disk[id] = want
+						delete(m.doubt, id)
+					}
+				case inDoubt && proto.Equal(g, d):
+					promote(id, d)
+				default:
+					return fmt.Errorf("%s: region %d loaded as %s (saved version #%d of %d), last acknowledged save %s", when, id, short(g), m.versionOf(g), len(m.vers[id]), short(want))
 				}
+				continue
+			}
+			if inDoubt && proto.Equal(g, d) {
+				promote(id, d)
 				continue
 			}
 			if !m.leveldb {
@@ -914,7 +975,13 @@ func runRegionCase(c RCase) (info vkit.Info, err error) {
 		}
 		for _, id := range sortedIDs(m.live) {
 			if !seen[id] {
-				return fmt.Errorf("%s: live region %s not returned by a full load (%d returned, %d live)", when, short(m.live[id]), len(got), len(m.live))
+				return fmt.Errorf("%s: live region %s (its save was acknowledged and a later flush/close returned without error) not returned by a full load (%d returned, %d live)", when, short(m.live[id]), len(got), len(m.live))
+			}
+		}
+		for _, id := range sortedIDs(m.doubt) {
+			if !seen[id] { // never acknowledged, not durable: allowed
+				delete(m.disk, id)
+				delete(m.doubt, id)
 			}
 		}
 		return nil
@@ -949,6 +1016,7 @@ func runRegionCase(c RCase) (info vkit.Info, err error) {
 		if e := save(id, RBody{S: i % c.Slots, Span: 1, V: v, C: 1, P: 1 + i%3}); e != nil {
 			return info, fmt.Errorf("initial save %d: %v", i, e)
 		}
+		poolOf[id] = nextPool
 		liveIdx = append(liveIdx, nextPool)
 		nextPool++
 	}
@@ -968,6 +1036,7 @@ func runRegionCase(c RCase) (info vkit.Info, err error) {
 			if e := save(id, op.B); e != nil {
 				return info, fmt.Errorf("op %d: %v", i, e)
 			}
+			poolOf[id] = nextPool
 			liveIdx = append(liveIdx, nextPool)
 			nextPool++
 		case "over":
@@ -1071,6 +1140,7 @@ func runRegionCase(c RCase) (info vkit.Info, err error) {
 			}
 			f.rs = nil
 			m.batch = map[uint64]*metapb.Region{}
+			m.doubt = map[uint64]*metapb.Region{}
 			m.cnt = 0
 			// after the restart the durable content is what the server knows: an item
 			// is absent or holds the version of its last flushed save
@@ -1093,6 +1163,59 @@ func runRegionCase(c RCase) (info vkit.Info, err error) {
 			info.Class("crash")
 			info.ClassIf(lost > 0, "crash-lost-unflushed")
 			needCheck = true
+		case "faultflush":
+			// transient storage fault: the leveldb write of a flush fails; afterwards the
+			// fault goes away. An error returned = nothing may be lost, the batch stays pending.
+			if !m.leveldb {
+				break
+			}
+			if e := breakDB(); e != nil {
+				return info, fmt.Errorf("op %d: cannot close the leveldb handle: %v", i, e)
+			}
+			ferr := st.Flush()
+			if e := healDB(); e != nil {
+				return info, fmt.Errorf("op %d: cannot reopen leveldb: %v", i, e)
+			}
+			if ferr == nil {
+				// reported as successful: then everything saved must be durable (decided by the next load)
+				m.flush()
+				info.Class("flush-under-fault-returned-nil")
+			}
+			info.Class("flush-write-fault")
+			info.ClassIf(len(m.batch) > 0, "flush-write-fault-with-pending-batch")
+		case "faultfill":
+			// the same fault hits the automatic flush of the 100th batched save: saves of
+			// live regions go on under the fault until one returns an error (that save is
+			// not acknowledged; every earlier acknowledged one must survive).
+			if !m.leveldb || len(liveIdx) == 0 {
+				break
+			}
+			if e := breakDB(); e != nil {
+				return info, fmt.Errorf("op %d: cannot close the leveldb handle: %v", i, e)
+			}
+			failed := 0
+			extra := 0
+			if op.B.Keep {
+				extra = 1 // one more save after the first failure: the flush is retried and fails again
+			}
+			for j := 0; j < 101 && failed <= extra; j++ {
+				id, _ := c.IDs.id(liveIdx[(op.Pick+j)%len(liveIdx)])
+				old := m.live[id]
+				seq++
+				r := proto.Clone(old).(*metapb.Region)
+				r.RegionEpoch.ConfVer++
+				r.Peers = []*metapb.Peer{{Id: uint64(seq)*8 + 1, StoreId: 1}}
+				if e := st.SaveRegion(r); e != nil {
+					m.saveFailed(r)
+					failed++
+				} else {
+					m.save(r)
+				}
+			}
+			if e := healDB(); e != nil {
+				return info, fmt.Errorf("op %d: cannot reopen leveldb: %v", i, e)
+			}
+			info.ClassIf(failed > 0, "autoflush-write-fault")
 		case "check":
 			needCheck = true
 		}
